@@ -120,6 +120,7 @@ pub struct Gen {
     pub sites: usize,
     pub faults: Vec<String>,
     ext_tag: u32,
+    last_ext: Option<PT>,
     loop_depth: usize,
 }
 
@@ -158,6 +159,7 @@ impl Gen {
             sites: 0,
             faults: vec![],
             ext_tag: 0,
+            last_ext: None,
             loop_depth: 0,
         }
     }
@@ -350,7 +352,13 @@ impl Gen {
                 }
                 5 => {
                     if let Ty::Prim(p) = t {
+                        // half of the time an adjacent leaf of the same type repeats the previous tag
+                        // (equal custom instructions back to back)
+                        if self.last_ext == Some(*p) && self.rng.below(2) == 0 {
+                            return Some(EV::Ext(self.ext_tag, *p));
+                        }
                         self.ext_tag += 1;
+                        self.last_ext = Some(*p);
                         return Some(EV::Ext(self.ext_tag, *p));
                     }
                 }
